@@ -80,6 +80,11 @@ func init() {
 		}
 		ctxs[4].T = 2047 // every condition trapped but Clamped (Inexact and Rounded included)
 		ctxs[5].T = 1967 | 16
+		// exponents more than 100000 apart (Add/Sub refuse them: the error paths run too) and coefficients of 4000+ digits of
+		// different lengths (only for the cheap operations)
+		pool = append(pool, finDec(false, bigInt(1), 60000), finDec(true, bigInt(7), -60000),
+			finDec(false, g.R.digits(4100), -4000), finDec(true, g.R.digits(4333), -4300))
+		farFrom := len(pool) - 4
 		ctxs = append(ctxs, Ctx{P: 100, Emin: -100000, Emax: 100000, R: "half_up"})
 		allNines := len(ctxs) - 1
 		for _, k := range []int{39, 45, 70} { // 99..9.5: rounding to an integer rolls over to 10^k, a value the power-of-ten table also holds
@@ -106,10 +111,19 @@ func init() {
 			ncase := 160
 			cases := make([]concCase, ncase)
 			for i := range cases {
-				cc := concCase{op: ops[g.R.Intn(len(ops))], ci: g.R.Intn(len(sc)), xi: g.R.Intn(len(sx)), yi: g.R.Intn(len(sx)), q: g.R.between(-3, 3)}
+				cc := concCase{op: ops[g.R.Intn(len(ops))], ci: g.R.Intn(len(sc)), xi: g.R.Intn(farFrom), yi: g.R.Intn(farFrom), q: g.R.between(-3, 3)}
 				if cc.op == "quantize" && g.R.Intn(3) == 0 { // pad by more than 128 digits (beyond the power-of-ten table)
 					cc.ci = len(sc) - 1
 					cc.q = -[]int{140, 200, 300}[g.R.Intn(3)]
+				}
+				if (cc.op == "add" || cc.op == "sub") && g.R.Intn(4) == 0 { // refused: exponents too far apart
+					cc.xi, cc.yi = farFrom+g.R.Intn(2), farFrom+g.R.Intn(2)
+				}
+				if (cc.op == "add" || cc.op == "sub" || cc.op == "cmp" || cc.op == "abs" || cc.op == "neg" || cc.op == "round" || cc.op == "reduce") && g.R.Intn(5) == 0 {
+					cc.xi, cc.yi = farFrom+2+g.R.Intn(2), farFrom+2+g.R.Intn(2) // 4000+ digits
+					if g.R.bool() {
+						cc.yi = g.R.Intn(10)
+					}
 				}
 				if (cc.op == "quantize" || cc.op == "tointx" || cc.op == "tointv") && g.R.Intn(3) == 0 {
 					cc.ci, cc.xi, cc.q = allNines, ninesFrom+g.R.Intn(3), 0
@@ -210,8 +224,11 @@ func init() {
 				}
 				ev.Key = "conc|" + cc.op + "|" + ctxStr(ctxs[cc.ci]) + "|" + decStr(pool[cc.xi]) + "|" + decStr(pool[cc.yi]) + fmt.Sprintf("|q%d", cc.q)
 				g.emit(ev, "conc/"+cc.op)
-				// the outcome when run alone is also judged as an ordinary call event
-				g.emit(mkA(cc.op, ctxs[cc.ci], pool[cc.xi], pool[cc.yi], cc.q, "", fresh), "alone/"+cc.op)
+				// the outcome when run alone is also judged as an ordinary call event (not for the 4000-digit operands: their
+				// arithmetic is judged elsewhere at sizes the specification evaluates quickly; here only equality matters)
+				if cc.xi < farFrom+2 && cc.yi < farFrom+2 || cc.xi >= farFrom+4 {
+					g.emit(mkA(cc.op, ctxs[cc.ci], pool[cc.xi], pool[cc.yi], cc.q, "", fresh), "alone/"+cc.op)
+				}
 			}
 			after := make([]Dec, len(sx))
 			for i := range sx {
